@@ -300,6 +300,13 @@ func c15Tree() tm.Tree {
 		{Path: "chr", Type: tm.Chr, Mode: 0o666, Mtime: tm.Past, Rdev: 0x0103},
 		{Path: "blk", Type: tm.Blk, Mode: 0o660, Mtime: tm.Past, Rdev: 0x0801, Uid: 12345, Gid: 54321},
 		tm.File(strings.Repeat("L", 200), []byte("long"), 0o644, tm.Past),
+		// equal device numbers on non-neighbouring nodes; runs of equal mode/time/owner interrupted by other entries
+		{Path: "same-a-null", Type: tm.Chr, Mode: 0o666, Mtime: tm.Past, Rdev: 0x0103},
+		tm.File("same-b-file", []byte("between"), 0o666, tm.Past),
+		{Path: "same-c-null", Type: tm.Chr, Mode: 0o666, Mtime: tm.Past, Rdev: 0x0103},
+		{Path: "same-d-null", Type: tm.Chr, Mode: 0o666, Mtime: tm.Past, Rdev: 0x0103},
+		tm.D("same-e-dir", 0o666, tm.Past),
+		{Path: "same-f-blk", Type: tm.Blk, Mode: 0o666, Mtime: tm.Past, Rdev: 0x0103},
 	}
 	t[1].Uid, t[1].Gid = 1, 65534
 	return t
